@@ -38,7 +38,7 @@ def worker(tier, keys, pairs):
             def run(dev):
                 vset.CTRL.reset(dev)
                 try:
-                    b = pipeline.build(json.loads(json.dumps(samples)), types=pipeline.ALL_TYPES, dkr=dkr, merge=merge)
+                    b = c06.build_input(samples, dkr, merge)
                     text = pipeline.render(b.reg, fw, layout)
                 except Exception as e:
                     text = f"exc:{type(e).__name__}:{core.exc_site(e)}"
@@ -104,7 +104,7 @@ def explore(tier):
     for rec in recs:
         samples, dkr = inputs[rec["input"]]
         try:
-            b = pipeline.build(json.loads(json.dumps(samples)), types=pipeline.ALL_TYPES, dkr=dkr, merge=rec["merge"])
+            b = c06.build_input(samples, dkr, rec["merge"])
             plain = pipeline.render(b.reg, rec["fw"], rec["layout"])
         except Exception as e:
             plain = f"exc:{type(e).__name__}:{core.exc_site(e)}"
